@@ -741,7 +741,7 @@ def gen_reject(tier, seed):
             lo, hi = krange(kb, sg)
             for n in (2, 3, 5, 9):
                 for i in range(1, n):
-                    base = max(lo, -1000) + rng.randint(0, 100)
+                    base = max(lo, -1000) + rng.randint(8, 100)          # room for the "smaller key" (x - 7) inside the key type
                     xs = [base + 10 * j + rng.randint(0, 5) for j in range(n)]
                     pts = [(x, rng.choice([j, 3 * j, j * j])) for j, x in enumerate(xs)]   # steep ranks force rejections -> new segments
                     pts[i] = (pts[i - 1][0] - rng.choice([0, 0, 1, 7]), pts[i][1])
@@ -863,3 +863,36 @@ def gen_cmp(tier, seed):
                                                               " ".join(map(str, keys)), " ".join(map(str, qs))))
         stats["n"]["huge-level"] = 1
     return cases, stats
+
+
+# ---------------------------------------------------------------- domain guard
+_CT = {"uint32": (32, 0), "uint64": (64, 0), "int32": (32, 1), "int64": (64, 1)}
+def out_of_domain(line):
+    """None if every key / query / operand of the case lies inside its key type (the reserved maximum included: rejection cases
+    use it on purpose); otherwise a short description.  The harness would silently convert such a literal to the key type while
+    the model takes it as written, so a generator slip here must never reach the comparison (it would look like a violation)."""
+    secs = line.split(" | "); h = secs[0].split()
+    kind = h[0]
+    try:
+        if kind in ("IDX", "MAP", "DYN"): kb, sg = int(h[3]), int(h[4])
+        elif kind in ("SEG", "PLA"): kb, sg = int(h[2]), int(h[3])
+        elif kind in ("BKT", "EFI", "CMP"): kb, sg = int(h[3]), 0
+        elif kind in ("CIX", "CDY"): kb, sg = _CT[h[2].replace("_t", "")]
+        else: return None
+    except (ValueError, KeyError, IndexError):
+        return None
+    lo, hi = krange(kb, sg)
+    for sec in secs[1:]:
+        for tok in sec.split():
+            parts = tok.split(":")
+            if kind in ("DYN", "CDY"):
+                if parts[0] in ("I", "E", "F", "C", "L", "T"): ks = parts[1:2]
+                elif parts[0] == "R": ks = parts[1:3]
+                elif parts[0] in ("B", "S", "M", "-"): ks = []
+                else: ks = parts[0:1]
+            else: ks = parts[0:1]
+            for k in ks:
+                try: v = int(k)
+                except ValueError: continue
+                if v < lo or v > hi: return "%s outside [%d, %d]" % (tok, lo, hi)
+    return None
